@@ -176,13 +176,14 @@ type accountLeaf struct {
 
 // decSrcMore: like decSrc, for record types of block_more.tlb. noenc: the library has no encoder for the type (its
 // decoder is hand-written): only the reading is judged.
-// MaxTree bounds the unfolded size (cells) of a source tree that is written out: an OutMsg entry repeats its whole
-// transaction (and, through reimport, the InMsg with the transaction again), so entries of transactions with hundreds of
-// messages unfold to tens of thousands of cells each. Larger records are counted (k = "TooBig") and not judged.
-var MaxTree = 300
+// MaxTree bounds the unfolded size of a source tree that is written out, in units of 64 bits per cell plus its data
+// bits: an OutMsg entry repeats its whole transaction (and, through reimport, the InMsg with the transaction again), so
+// entries of transactions with hundreds of messages or with large bodies unfold to megabytes each (an event carries the
+// tree three times and the value twice). Larger records are counted (k = "TooBig") and not judged.
+var MaxTree = 40000
 
 func treeSize(c *boc.Cell, budget *int) {
-	*budget--
+	*budget -= 64 + c.BitSize()
 	if *budget < 0 {
 		return
 	}
@@ -191,10 +192,31 @@ func treeSize(c *boc.Cell, budget *int) {
 	}
 }
 
-func decSrcMore(w *ev.Writer, name string, src *boc.Cell, ptr any, where string, noenc bool) {
+func tooBig(src *boc.Cell) bool {
 	tb := MaxTree
-	if treeSize(src, &tb); tb < 0 {
-		w.Emit(ev.M{"k": "TooBig", "type": name, "where": where})
+	treeSize(src, &tb)
+	return tb < 0
+}
+
+// spreadOrder lists 0..total-1 so that every prefix is spread evenly over the range (stride total/quota, then the
+// same with offsets 1, 2, ...): the quick tier walks it until it has judged `quota` records.
+func spreadOrder(total, quota int) []int {
+	stride := total / quota
+	if stride < 1 {
+		stride = 1
+	}
+	out := make([]int, 0, total)
+	for off := 0; off < stride; off++ {
+		for i := off; i < total; i += stride {
+			out = append(out, i)
+		}
+	}
+	return out
+}
+
+func decSrcMore(w *ev.Writer, name string, src *boc.Cell, ptr any, where string, noenc bool) {
+	if tooBig(src) {
+		emit(w, ev.M{"k": "TooBig", "type": name, "where": where})
 		return
 	}
 	b := 400000
@@ -204,12 +226,16 @@ func decSrcMore(w *ev.Writer, name string, src *boc.Cell, ptr any, where string,
 	m["dec"] = st
 	if st != "ok" {
 		m["msg"] = msg
-		w.Emit(m)
+		emit(w, m)
 		return
 	}
 	val := reflect.ValueOf(ptr).Elem()
 	m["unique"] = !hasNonEmptyDict(val, 0)
 	dv := dumpDictBits(val)
+	if err := shapeOfDump(name, dv); err != nil && !m["exotic"].(bool) {
+		emit(w, ev.M{"k": "Shape", "type": name, "where": where, "why": err.Error(), "vs": canon(dv)})
+		return
+	}
 	m["v"] = dv
 	m["ds"] = canon(dv)
 	m["tj"] = tlbx.Tree(src)
@@ -224,7 +250,7 @@ func decSrcMore(w *ev.Writer, name string, src *boc.Cell, ptr any, where string,
 			m["msg"] = msg
 		}
 	}
-	w.Emit(m)
+	emit(w, m)
 }
 
 // MoreBlocks: the real blocks of the repository's test data.
@@ -265,19 +291,38 @@ func accountsCells(state *boc.Cell) []*boc.Cell {
 // DriveMore records the additional real-data events. In the quick tier entries of the big dictionaries are sampled.
 func DriveMore(w *ev.Writer, o Opts) {
 	quick := o.Tier != "thorough"
-	MaxTree = 300
+	MaxTree = 40000
 	if !quick {
-		MaxTree = 800
+		MaxTree = 50000
 	}
 	n := 0 // running index over all records: sharding
-	// quick: at most `quota` entries of one dictionary, spread evenly over its keys (total = number of entries)
+	// quick: at most `quota` JUDGED entries of one dictionary, spread evenly over its keys (entries too big to be written
+	// out do not count); thorough: every entry
 	const quota = 24
-	take := func(i, total int) bool {
-		if quick && total > quota && (i*quota)/total == ((i-1)*quota)/total && i != 0 {
-			return false
-		}
+	mine := func() bool {
 		n++
 		return n%o.Shards == o.Shard
+	}
+	take := func(i, total int) bool { return mine() }
+	// each walks the entries of one dictionary in the tier's order; f decodes and emits entry i
+	each := func(total int, slice func(i int) *boc.Cell, name string, where func(i int) string, f func(i int)) {
+		judged := 0
+		for _, i := range spreadOrder(total, quota) {
+			if quick && judged >= quota {
+				break
+			}
+			m := mine()
+			if tooBig(slice(i)) {
+				if m {
+					emit(w, ev.M{"k": "TooBig", "type": name, "where": where(i)})
+				}
+				continue
+			}
+			judged++
+			if m {
+				f(i)
+			}
+		}
 	}
 	for bi, bp := range MoreBlocks() {
 		data, err := os.ReadFile(bp)
@@ -290,13 +335,13 @@ func DriveMore(w *ev.Writer, o Opts) {
 		}
 		roots, err := boc.DeserializeBoc(data)
 		if err != nil || len(roots) != 1 {
-			w.Emit(ev.M{"k": "Panic", "where": bp, "panic": fmt.Sprint("block does not parse: ", err)})
+			emit(w, ev.M{"k": "Panic", "where": bp, "panic": fmt.Sprint("block does not parse: ", err)})
 			continue
 		}
 		root := roots[0]
 		refs := root.Refs()
 		if len(refs) != 4 {
-			w.Emit(ev.M{"k": "Panic", "where": bp, "panic": fmt.Sprintf("block root has %d references", len(refs))})
+			emit(w, ev.M{"k": "Panic", "where": bp, "panic": fmt.Sprintf("block root has %d references", len(refs))})
 			continue
 		}
 		if take(0, 1) {
@@ -310,7 +355,7 @@ func DriveMore(w *ev.Writer, o Opts) {
 		// block_extra#4a33f6fd in_msg_descr:^InMsgDescr out_msg_descr:^OutMsgDescr account_blocks:^ShardAccountBlocks ...
 		xrefs := refs[3].Refs()
 		if len(xrefs) < 3 {
-			w.Emit(ev.M{"k": "Panic", "where": bp, "panic": fmt.Sprintf("block extra has %d references", len(xrefs))})
+			emit(w, ev.M{"k": "Panic", "where": bp, "panic": fmt.Sprintf("block extra has %d references", len(xrefs))})
 			continue
 		}
 		// one shard per block asks the library for its listing of the two dictionaries (the walker and the library must see
@@ -319,7 +364,7 @@ func DriveMore(w *ev.Writer, o Opts) {
 		var blk tlb.Block
 		if owner {
 			if st, msg := unmarshal(root, &blk); st != "ok" {
-				w.Emit(ev.M{"k": "Panic", "where": bp, "panic": "block does not decode: " + st + " " + msg})
+				emit(w, ev.M{"k": "Panic", "where": bp, "panic": "block does not decode: " + st + " " + msg})
 				continue
 			}
 		}
@@ -332,7 +377,7 @@ func DriveMore(w *ev.Writer, o Opts) {
 			c.ResetCounters()
 			leaves, pruned, err := augELeaves(&c, 256)
 			if err != nil || pruned != 0 {
-				w.Emit(ev.M{"k": "Panic", "where": bname + " " + d.name, "panic": fmt.Sprintf("dictionary walk failed: %v (pruned %d)", err, pruned)})
+				emit(w, ev.M{"k": "Panic", "where": bname + " " + d.name, "panic": fmt.Sprintf("dictionary walk failed: %v (pruned %d)", err, pruned)})
 				continue
 			}
 			// the walker and the library must see the same entries
@@ -344,7 +389,7 @@ func DriveMore(w *ev.Writer, o Opts) {
 			} else if d.name == "InMsgDescrLeaf" {
 				hm, err := blk.Extra.InMsgDescr()
 				if err != nil {
-					w.Emit(ev.M{"k": "DECSRC", "type": "InMsgDescr", "where": bname, "tree": "", "dec": "err", "enc": "", "tree2": "", "unique": false, "msg": err.Error()})
+					emit(w, ev.M{"k": "DECSRC", "type": "InMsgDescr", "where": bname, "tree": "", "dec": "err", "enc": "", "tree2": "", "unique": false, "msg": err.Error()})
 					continue
 				}
 				for _, k := range hm.Keys() {
@@ -354,7 +399,7 @@ func DriveMore(w *ev.Writer, o Opts) {
 			} else {
 				hm, err := blk.Extra.OutMsgDescr()
 				if err != nil {
-					w.Emit(ev.M{"k": "DECSRC", "type": "OutMsgDescr", "where": bname, "tree": "", "dec": "err", "enc": "", "tree2": "", "unique": false, "msg": err.Error()})
+					emit(w, ev.M{"k": "DECSRC", "type": "OutMsgDescr", "where": bname, "tree": "", "dec": "err", "enc": "", "tree2": "", "unique": false, "msg": err.Error()})
 					continue
 				}
 				for _, k := range hm.Keys() {
@@ -368,22 +413,19 @@ func DriveMore(w *ev.Writer, o Opts) {
 				myKeys = append(myKeys, l.Key)
 			}
 			if strings.Join(myKeys, ",") != strings.Join(libKeys, ",") {
-				w.Emit(ev.M{"k": "Panic", "where": bname + " " + d.name, "panic": fmt.Sprintf("the library lists %d keys, the dictionary holds %d", len(libKeys), len(myKeys))})
+				emit(w, ev.M{"k": "Panic", "where": bname + " " + d.name, "panic": fmt.Sprintf("the library lists %d keys, the dictionary holds %d", len(libKeys), len(myKeys))})
 				continue
 			}
-			for i, l := range leaves {
-				if !take(i, len(leaves)) {
-					continue
-				}
-				where := fmt.Sprintf("%s %s %d key %s..", bname, d.name, i, l.Key[:16])
+			where := func(i int) string { return fmt.Sprintf("%s %s %d key %s..", bname, d.name, i, leaves[i].Key[:16]) }
+			each(len(leaves), func(i int) *boc.Cell { return leaves[i].Slice }, d.name, where, func(i int) {
 				if d.name == "InMsgDescrLeaf" {
 					var x inMsgLeaf
-					decSrcMore(w, d.name, l.Slice, &x, where, false)
+					decSrcMore(w, d.name, leaves[i].Slice, &x, where(i), false)
 				} else {
 					var x outMsgLeaf
-					decSrcMore(w, d.name, l.Slice, &x, where, false)
+					decSrcMore(w, d.name, leaves[i].Slice, &x, where(i), false)
 				}
-			}
+			})
 		}
 		// ---- account records in the old and the new shard state of the Merkle update
 		mu := refs[2]
@@ -391,16 +433,14 @@ func DriveMore(w *ev.Writer, o Opts) {
 			for _, ac := range accountsCells(st) {
 				leaves, _, err := augELeaves(ac, 256)
 				if err != nil {
-					w.Emit(ev.M{"k": "Panic", "where": bname + " accounts", "panic": "dictionary walk failed: " + err.Error()})
+					emit(w, ev.M{"k": "Panic", "where": bname + " accounts", "panic": "dictionary walk failed: " + err.Error()})
 					continue
 				}
-				for i, l := range leaves {
-					if !take(i, len(leaves)) {
-						continue
-					}
+				where := func(i int) string { return fmt.Sprintf("%s state %d account %d key %s..", bname, si, i, leaves[i].Key[:16]) }
+				each(len(leaves), func(i int) *boc.Cell { return leaves[i].Slice }, "ShardAccountsLeaf", where, func(i int) {
 					var x accountLeaf
-					decSrcMore(w, "ShardAccountsLeaf", l.Slice, &x, fmt.Sprintf("%s state %d account %d key %s..", bname, si, i, l.Key[:16]), false)
-				}
+					decSrcMore(w, "ShardAccountsLeaf", leaves[i].Slice, &x, where(i), false)
+				})
 			}
 		}
 	}
